@@ -384,6 +384,13 @@ func execX1(op string, a []string) string {
 	case "x.mult", "x.model":
 		var dst [32]byte
 		x25519.ScalarMult(&dst, x1Arr(unhex(a[0])), x1Arr(unhex(a[1])))
+		// in place: the destination is the scalar array / the point array itself
+		k2, u2 := x1Arr(unhex(a[0])), x1Arr(unhex(a[1]))
+		x25519.ScalarMult(k2, k2, x1Arr(unhex(a[1])))
+		x25519.ScalarMult(u2, x1Arr(unhex(a[0])), u2)
+		if *k2 != dst || *u2 != dst {
+			return "alias-mismatch " + hx(dst[:]) + " " + hx(k2[:]) + " " + hx(u2[:])
+		}
 		return "ok " + hx(dst[:])
 	case "x.mmul":
 		sc, err := scalar.NewFromBits(unhex(a[0]))
@@ -396,6 +403,11 @@ func execX1(op string, a []string) string {
 		}
 		var out curve.MontgomeryPoint
 		out.Mul(&mp, sc)
+		al := mp
+		al.Mul(&al, sc)
+		if al != out {
+			return "alias-mismatch " + hx(out[:]) + " " + hx(al[:])
+		}
 		return "ok " + hx(out[:])
 	case "x.base":
 		var dst [32]byte
